@@ -210,7 +210,13 @@ Definition post (k : N) (sc : list scalar) (fs : list (list tree)) : option (lis
   else if N.eqb k kIf then
     match fs with
     | [[test]; b; o] =>
-        if is_guard_test test then (if trees_eqb b (map norm o) then Some b else None)
+        if is_guard_test test then
+          (if trees_eqb b (map norm o) then Some b
+           else match o with
+                | [] => (* a loop body of nothing but declarations (hoisted): the instrumented branch is `pass`, there is no pristine branch *)
+                        if forallb (tree_eqb (T kPass [] [])) b then Some b else None
+                | _ => None
+                end)
         else if is_emit_of E_before_stmt test then
           match b with
           | [T ke [] [[T kc [] [[f]; []; []]]]] => if N.eqb ke kExpr && N.eqb kc kCall && name_is id_thunk f then Some o else None
